@@ -336,6 +336,8 @@ class Evaluator:
                     return POISON
                 raise
             return POISON if mod_frame.uncertain and self.tolerant and not self._is_top(mod_frame) else None
+        except RecursionError:
+            raise Unknown("evaluation too deeply nested") from None
         finally:
             self.stack.pop()
 
